@@ -1266,10 +1266,11 @@ func lineBoxVerticality(context *layoutContext, box Box) (pr.Float, pr.Float) {
 func translateSubtree(box Box, dy pr.Float) {
 	if bo.InlineT.IsInstance(box) {
 		box.Box().PositionY += dy
-		if va := box.Box().Style.GetVerticalAlign().S; va == "top" || va == "bottom" {
-			for _, child := range box.Box().Children {
-				translateSubtree(child, dy)
+		for _, child := range box.Box().Children {
+			if va := child.Box().Style.GetVerticalAlign().S; child.Box().IsInNormalFlow() && (va == "top" || va == "bottom") {
+				continue // an aligned subtree of its own, translated separately
 			}
+			translateSubtree(child, dy)
 		}
 	} else {
 		// Text or atomic boxes
